@@ -13,7 +13,9 @@
 //!     `From<u32>` (values below p map to themselves), `cmp` = integer order of the canonical values;
 //!   * `+` and `-` are addition / subtraction modulo p;
 //!   * `*` and `/` are NOT modelled (Operation::Mul / Div stay in the trusted base): reaching them panics,
-//!     and no harness selects them.
+//!     and no harness selects them;
+//!   * `pow` (not called by the current code; a fix of the missing `Pow` arm of `eval_fr` would call it) is an
+//!     uninterpreted function returning SOME canonical element.
 #![allow(unused)]
 use ark_ff::BigInt;
 use std::cmp::Ordering;
@@ -63,6 +65,17 @@ impl Fr {
     pub fn is_zero(&self) -> bool { self.0 .0[0] == 0 && self.0 .0[1] == 0 && self.0 .0[2] == 0 && self.0 .0[3] == 0 }
     pub fn zero() -> Fr { Fr(BigInt::new([0, 0, 0, 0])) }
     pub fn one() -> Fr { Fr(BigInt::new([1, 0, 0, 0])) }
+    /// ark_ff::Field::pow: uninterpreted, some canonical field element (trusted base).
+    pub fn pow<S: AsRef<[u64]>>(&self, _exp: S) -> Fr {
+        #[cfg(kani)]
+        {
+            let r: [u64; 4] = [kani::any(), kani::any(), kani::any(), kani::any()];
+            kani::assume(lt_limbs(&r, &P_LIMBS));
+            return Fr(BigInt::new(r));
+        }
+        #[cfg(not(kani))]
+        panic!("Fr model: pow is not modelled")
+    }
     pub fn cmp(&self, o: &Fr) -> Ordering {
         if lt_limbs(&self.0 .0, &o.0 .0) { Ordering::Less } else if lt_limbs(&o.0 .0, &self.0 .0) { Ordering::Greater } else { Ordering::Equal }
     }
